@@ -1217,6 +1217,10 @@ caption_command(vbi_decoder *vbi, struct caption *cc,
 
 		case 12:	/* Erase Displayed Memory	001 c10f  010 1100 */
 // s1, s4: EDM always before EOC
+			/* EIA 608-B Section 7.7, Annex B.7: In Text Mode EDM
+			   and ENM are acted upon for caption processing. */
+			ch = &cc->channel[chan & 3];
+
 			if (ch->mode != MODE_POP_ON)
 				erase_memory(cc, ch, ch->hidden);
 
@@ -1226,7 +1230,8 @@ caption_command(vbi_decoder *vbi, struct caption *cc,
 			return;
 
 		case 14:	/* Erase Non-Displayed Memory	001 c10f  010 1110 */
-// not verified
+			ch = &cc->channel[chan & 3];
+
 			if (ch->mode == MODE_POP_ON)
 				erase_memory(cc, ch, ch->hidden);
 
